@@ -111,7 +111,7 @@ def canary_always_false(a, b):
 # ---- geometry-level predicates -----------------------------------------------------------------
 # `bounds_of` is the C05 spec function (contracts.geometry); for C12 the geometries stay opaque and
 # only the facts C05 proves about compute_bounds are used: result == bounds_of(geometry), ordered.
-from contracts.geometry import bounds_of, ComputeBounds  # noqa: E402,F401
+from contracts.geometry import bounds_of, valid_geometry, ComputeBounds  # noqa: E402,F401
 
 
 class HaveTemporalOverlap:
@@ -119,6 +119,9 @@ class HaveTemporalOverlap:
     types = {"geom1": "Opq:Geometry", "geom2": "Opq:Geometry",
              "min_absolute_overlap": "Optional[float]", "min_relative_overlap": "Optional[float]"}
     result = "bool"
+
+    def requires(geom1, geom2):
+        return valid_geometry(geom1) and valid_geometry(geom2)
 
     def raises_ValueError(min_absolute_overlap, min_relative_overlap):
         return bad_thresholds(min_absolute_overlap, min_relative_overlap)
@@ -138,6 +141,9 @@ class HaveFrequencyOverlap:
              "min_absolute_overlap": "Optional[float]", "min_relative_overlap": "Optional[float]"}
     result = "bool"
 
+    def requires(geom1, geom2):
+        return valid_geometry(geom1) and valid_geometry(geom2)
+
     def raises_ValueError(min_absolute_overlap, min_relative_overlap):
         return bad_thresholds(min_absolute_overlap, min_relative_overlap)
 
@@ -155,8 +161,8 @@ class IsInClip:
     types = {"geometry": "Opq:Geometry", "clip": "Obj:soundevent.data.clips.Clip", "minimum_overlap": "float"}
     result = "bool"
 
-    def requires(clip):
-        return clip.start_time <= clip.end_time
+    def requires(geometry, clip):
+        return valid_geometry(geometry) and clip.start_time <= clip.end_time
 
     def raises_ValueError(minimum_overlap):
         return minimum_overlap < 0
@@ -167,6 +173,8 @@ class IsInClip:
 
 
 def lemma_inside_is_in(geometry, clip):
+    if not valid_geometry(geometry):
+        return True
     # an event of non-zero duration lying wholly inside the clip is in (minimum_overlap = 0)
     b = bounds_of(geometry)
     if not (clip.start_time <= b[0] and b[0] < b[2] and b[2] <= clip.end_time):
@@ -175,6 +183,8 @@ def lemma_inside_is_in(geometry, clip):
 
 
 def lemma_timestamp_strictly_inside_is_in(geometry, clip):
+    if not valid_geometry(geometry):
+        return True
     b = bounds_of(geometry)
     if not (b[0] == b[2] and clip.start_time < b[0] and b[0] < clip.end_time):
         return True
@@ -184,6 +194,8 @@ def lemma_timestamp_strictly_inside_is_in(geometry, clip):
 def lemma_touching_edge_is_out(geometry, clip, m):
     # an event that ends exactly at the clip start, or starts exactly at the clip end, is out
     b = bounds_of(geometry)
+    if not valid_geometry(geometry):
+        return True
     if m < 0 or not (clip.start_time <= clip.end_time) or not (b[0] <= b[2]):
         return True
     if not (b[2] == clip.start_time or b[0] == clip.end_time):
